@@ -462,11 +462,11 @@ PROPS["C15"] = {
 
 PROPS.update({
     "C12": gw("C12",
-              "The property is FALSE of the unchanged code: three families of histories are recorded as known findings (broker-starved/client-traffic-answered-locally, "
-              "…/sleep-not-longer-than-keep-alive-has-no-pinger, …/first-sleep-ping-a-full-keep-alive-after-falling-asleep). Proved for ALL states of the gateway model "
+              "The property is FALSE of the unchanged code: four families of histories are recorded as known findings (broker-starved/client-traffic-answered-locally, "
+              "…/sleep-not-longer-than-keep-alive-has-no-pinger, …/first-sleep-ping-a-full-keep-alive-after-falling-asleep, …/sleep-cycle-continued-by-pingreq-has-no-pinger). Proved for ALL states of the gateway model "
               "(partial): c12_partial_forwarded, c12_partial_pinger, c12_partial_pinger_ticks, c12_no_pinger_for_short_sleep. The monitor Spec.c12 evaluates the full "
               "property on implementation traces of clients that meet their obligations (keepalive profile); a starvation outside the recorded families is a violation",
-              "partial theorems c12_*; monitor Spec.c12; 3 known findings",
+              "partial theorems c12_*; monitor Spec.c12; 4 known findings",
               assumptions=["the client's obligations are evaluated from the trace (a datagram within every keep-alive while active; a wake-up within every announced sleep); once "
                            "the client breaks them the monitor stops judging that trace"]),
     "C34": gw("C34",
